@@ -3,6 +3,7 @@ package main
 import (
 	"fmt"
 	"go/types"
+	"sort"
 	"strings"
 
 	"golang.org/x/tools/go/ssa"
@@ -23,6 +24,7 @@ type harnessCtx struct {
 	target   *ssa.Function
 	modifies []modClause
 	holeDone bool
+	havocVars map[string]string // fresh value of a havoc'd field -> memory name
 	pats     []string
 	strict   bool
 	name     string
@@ -38,6 +40,7 @@ type modClause struct {
 	path   string
 	mem    string
 	pats   []string
+	fields []string
 }
 
 func harnessSuffix(fn *ssa.Function) string {
@@ -163,7 +166,7 @@ var intrinsicNames = map[string]bool{
 	"vRequires": true, "vEnsures": true, "vAssert": true, "vAssume": true, "vForall": true, "vExists": true,
 	"vSameRegion": true, "vOffset": true, "vModifiesBytes": true, "vModifiesAll": true, "vFresh": true,
 	"vCanary": true, "vAllocs": true, "vUnreachable": true, "vModifiesObj": true, "vNoAlias": true, "vOpaque": true,
-	"vModifiesNothing": true, "vBorrowed": true, "vIsFreshRegion": true, "vModifiesHeap": true, "vStrictLen": true, "vModifiesMems": true, "vReveal": true,
+	"vModifiesNothing": true, "vBorrowed": true, "vIsFreshRegion": true, "vModifiesHeap": true, "vStrictLen": true, "vModifiesMems": true, "vReveal": true, "vModifiesField": true,
 }
 
 func (e *Engine) callStatic(fr *Frame, st *State, callee *ssa.Function, args []Value, site ssa.Instruction) []Value {
@@ -186,8 +189,14 @@ func (e *Engine) callStatic(fr *Frame, st *State, callee *ssa.Function, args []V
 			nf.hctx = nil
 			saved := e.strict
 			e.strict = h.strict
+			entry := map[string]*Mem{}
+			for k, v := range st.mems {
+				entry[k] = v
+			}
+			entrySeq := e.allocSeq
 			r := e.finishCall(fr, st, nf, args, site)
 			e.strict = saved
+			e.frameObligations(fr, st, entry, entrySeq, h, site)
 			return r
 		case modeApply:
 			e.applyModifies(st, h)
@@ -288,12 +297,16 @@ func (e *Engine) applyModifies(st *State, h *harnessCtx) {
 		case "obj":
 			ls := leavesOf(m.root)
 			for _, l := range ls {
-				if m.path != "" && l.path != m.path && !strings.HasPrefix(l.path, m.path+".") && !strings.HasPrefix(l.path, m.path+"$") {
+				if !m.coversLeaf(l.path) {
 					continue
 				}
 				name := objMemName(m.root, l)
 				v := FreshVar("hv."+name, l.sort)
 				st.mems[name] = e.mem(st, name, objKS, l.sort).Write([]*Term{m.ref}, v)
+				if h.havocVars == nil {
+					h.havocVars = map[string]string{}
+				}
+				h.havocVars[v.name] = name
 			}
 		case "mems":
 			for name, mm := range st.mems {
@@ -372,6 +385,7 @@ func (e *Engine) intrinsic(fr *Frame, st *State, callee *ssa.Function, args []Va
 	case "vEnsures", "vAssert":
 		c := args[0].term()
 		if h != nil && h.mode == modeApply {
+			e.refineHavoc(st, h, c)
 			st.assume(c)
 			return nil
 		}
@@ -427,6 +441,22 @@ func (e *Engine) intrinsic(fr *Frame, st *State, callee *ssa.Function, args []Va
 		s := args[0].T
 		sl := callee.Params[0].Type().Underlying().(*types.Slice)
 		h.modifies = append(h.modifies, modClause{kind: "bytes", elem: sl.Elem(), region: s[0], lo: s[1], hi: BVAdd(s[1], s[2])})
+		return nil
+	case "vModifiesObj", "vModifiesField":
+		if h == nil {
+			unsup("%s outside a harness", name)
+		}
+		iv, ok := e.ifaceVals[args[0].T[1].id]
+		if !ok || iv.val.A == nil || iv.val.A.kind != AHeap {
+			unsup("%s needs a pointer to a heap object", name)
+		}
+		a := iv.val.A
+		mc := modClause{kind: "obj", root: a.root, ref: a.ref}
+		if name == "vModifiesField" {
+			fs := e.stringSliceConsts(st, args[1])
+			mc.fields = fs
+		}
+		h.modifies = append(h.modifies, mc)
 		return nil
 	case "vModifiesAll":
 		if h == nil {
@@ -784,4 +814,262 @@ func (e *Engine) stringSliceConsts(st *State, v Value) []string {
 		out = append(out, lit)
 	}
 	return out
+}
+
+func (m *modClause) coversLeaf(path string) bool {
+	if len(m.fields) == 0 {
+		return true
+	}
+	for _, f := range m.fields {
+		if path == f || strings.HasPrefix(path, f+".") || strings.HasPrefix(path, f+"$") {
+			return true
+		}
+	}
+	return false
+}
+
+// frameObligations: after the body of the function under contract has run,
+// every memory location outside the declared modifies set (and outside memory
+// allocated by the call itself) still holds its entry value. The universally
+// quantified statement is Skolemised: one arbitrary location per memory.
+func (e *Engine) frameObligations(fr *Frame, st *State, entry map[string]*Mem, entrySeq uint64, h *harnessCtx, site ssa.Instruction) {
+	for _, m := range h.modifies {
+		if m.kind == "all" {
+			return
+		}
+	}
+	var names []string
+	for n := range st.mems {
+		names = append(names, n)
+	}
+	sort.Strings(names)
+	for _, name := range names {
+		fin := st.mems[name]
+		ent, ok := entry[name]
+		if !ok {
+			ent = NewBaseMem(name, fin.ksort, fin.sort, "M0."+name)
+		}
+		if fin == ent {
+			continue
+		}
+		covered := false
+		for _, m := range h.modifies {
+			switch m.kind {
+			case "heap":
+				if !(len(fin.ksort) == 2 && strings.HasPrefix(name, "elem:uint8/")) {
+					covered = true
+				}
+			case "mems":
+				for _, p := range m.pats {
+					if strings.Contains(name, p) {
+						covered = true
+					}
+				}
+			}
+		}
+		if covered {
+			continue
+		}
+		// first choice: check every write between the entry chain and the final
+		// chain individually (small queries); fall back to one arbitrary location
+		if e.frameByWrites(fr, st, name, fin, ent, entrySeq, h, site) {
+			continue
+		}
+		// arbitrary key
+		keys := make([]*Term, len(fin.ksort))
+		for i, s := range fin.ksort {
+			keys[i] = FreshVar("frame.k", s)
+		}
+		var outside []*Term
+		switch {
+		case len(fin.ksort) == 2 && strings.HasPrefix(name, "elem:"):
+			// not a region allocated by the call
+			outside = append(outside, BVUle(keys[0], BVConstU(0xF000000000000000+entrySeq, RegionSort)))
+			// cells of arrays embedded in heap objects exist only inside the array
+			for id, n := range fieldLens {
+				isF := Eq(Extract(keys[0], 63, 32), BVConstU(0xE0000000+id, 32))
+				outside = append(outside, Implies(isF, And(BVSle(BVConst(0, IntSort), keys[1]), BVSlt(keys[1], BVConst(n, IntSort)))))
+			}
+			for _, m := range h.modifies {
+				if m.kind == "bytes" && strings.HasPrefix(name, "elem:"+typeKeyElem(m.elem)+"/") {
+					outside = append(outside, Not(And(Eq(keys[0], m.region), BVSle(m.lo, keys[1]), BVSlt(keys[1], m.hi))))
+				}
+			}
+		case len(fin.ksort) == 1 && strings.HasPrefix(name, "obj:"):
+			outside = append(outside, BVUle(keys[0], BVConstU(0x80000000+entrySeq, RefSort)))
+			for _, m := range h.modifies {
+				if m.kind != "obj" {
+					continue
+				}
+				for _, l := range leavesOf(m.root) {
+					if objMemName(m.root, l) == name && m.coversLeaf(l.path) {
+						outside = append(outside, Neq(keys[0], m.ref))
+					}
+				}
+			}
+		case strings.HasPrefix(name, "map:"):
+			outside = append(outside, BVUle(keys[0], BVConstU(0x80000000+entrySeq, RefSort)))
+		}
+		tmp := st.clone()
+		tmp.assume(And(outside...))
+		goal := Eq(fin.Read(keys), ent.Read(keys))
+		ss := fr.spec
+		fr.spec = false
+		e.oblige(fr, tmp, "frame", site, goal, "memory "+name+" is unchanged outside the declared modifies set")
+		fr.spec = ss
+	}
+}
+
+// frameByWrites walks the chain from fin back to ent and emits, per write, the
+// obligation that it falls inside the modifies set or into memory allocated by
+// the call. It reports false when the chain shape does not allow this.
+func (e *Engine) frameByWrites(fr *Frame, st *State, name string, fin, ent *Mem, entrySeq uint64, h *harnessCtx, site ssa.Instruction) bool {
+	isElem := len(fin.ksort) == 2 && strings.HasPrefix(name, "elem:")
+	isObj := len(fin.ksort) == 1 && strings.HasPrefix(name, "obj:")
+	if !isElem && !isObj {
+		return false
+	}
+	type ob struct {
+		cond, goal *Term
+	}
+	var obs []ob
+	zero := BVConst(0, IntSort)
+	allowedRange := func(region, lo, hi *Term) *Term {
+		alts := []*Term{BVUlt(BVConstU(0xF000000000000000+entrySeq, RegionSort), region)}
+		for _, m := range h.modifies {
+			if m.kind == "bytes" && strings.HasPrefix(name, "elem:"+typeKeyElem(m.elem)+"/") {
+				alts = append(alts, And(Eq(region, m.region), BVSle(m.lo, lo), BVSle(hi, m.hi)))
+			}
+		}
+		return Or(alts...)
+	}
+	allowedRef := func(ref *Term) *Term {
+		alts := []*Term{BVUlt(BVConstU(0x80000000+entrySeq, RefSort), ref)}
+		for _, m := range h.modifies {
+			if m.kind != "obj" {
+				continue
+			}
+			for _, l := range leavesOf(m.root) {
+				if objMemName(m.root, l) == name && m.coversLeaf(l.path) {
+					alts = append(alts, Eq(ref, m.ref))
+				}
+			}
+		}
+		return Or(alts...)
+	}
+	ok := true
+	seen := map[*Mem]bool{}
+	var walk func(m *Mem, cond *Term)
+	walk = func(m *Mem, cond *Term) {
+		for m != nil && m != ent && ok {
+			if m.id < ent.id {
+				ok = false // passed below the entry chain without meeting it
+				return
+			}
+			switch m.kind {
+			case MWrite:
+				if isElem {
+					obs = append(obs, ob{cond, allowedRange(m.keys[0], m.keys[1], BVAdd(m.keys[1], BVConst(1, IntSort)))})
+				} else {
+					obs = append(obs, ob{cond, allowedRef(m.keys[0])})
+				}
+			case MCopy:
+				obs = append(obs, ob{And(cond, Neq(m.n, zero)), allowedRange(m.region, m.dst, BVAdd(m.dst, m.n))})
+			case MFill:
+				obs = append(obs, ob{cond, allowedRange(m.region, zero, zero)})
+			case MHavoc:
+				obs = append(obs, ob{And(cond, BVSlt(m.lo, m.hi)), allowedRange(m.region, m.lo, m.hi)})
+			case MHavocFresh:
+			case MHavocRegions:
+				for _, r := range m.regions {
+					n := int64(-1)
+					if r.op == "concat" && r.args[0].IsConst() {
+						if ln, ok2 := fieldLens[r.args[0].val.Uint64()-0xE0000000]; ok2 {
+							n = ln
+						}
+					}
+					if n < 0 {
+						ok = false
+						return
+					}
+					obs = append(obs, ob{cond, allowedRange(r, zero, BVConst(n, IntSort))})
+				}
+			case MMerge:
+				if seen[m] {
+					return
+				}
+				seen[m] = true
+				walk(m.a, And(cond, m.cond))
+				walk(m.b, And(cond, Not(m.cond)))
+				return
+			default:
+				ok = false
+				return
+			}
+			m = m.prev
+		}
+		if m == nil {
+			ok = false
+		}
+	}
+	walk(fin, True)
+	if !ok {
+		return false
+	}
+	ss := fr.spec
+	fr.spec = false
+	for _, o := range obs {
+		tmp := st.clone()
+		tmp.assume(o.cond)
+		if tmp.dead {
+			continue
+		}
+		e.oblige(fr, tmp, "frame", site, o.goal, "write to "+name+" stays inside the declared modifies set")
+	}
+	fr.spec = ss
+	return true
+}
+
+func typeKeyElem(elem types.Type) string {
+	u := elem.Underlying()
+	if b, ok := u.(*types.Basic); ok {
+		u = types.Typ[b.Kind()]
+	}
+	return typeKey(u)
+}
+
+// refineHavoc: when a postcondition pins a havoc'd field to a term (x' == t),
+// store t itself instead of the fresh variable, so that later index arithmetic
+// stays syntactic (old+1, old+2, ...) and memory reads can be resolved without
+// the solver.
+func (e *Engine) refineHavoc(st *State, h *harnessCtx, c *Term) {
+	if len(h.havocVars) == 0 {
+		return
+	}
+	var conj []*Term
+	if c.op == "and" {
+		conj = c.args
+	} else {
+		conj = []*Term{c}
+	}
+	for _, x := range conj {
+		if x.op != "=" {
+			continue
+		}
+		for k := 0; k < 2; k++ {
+			v, t := x.args[k], x.args[1-k]
+			if v.op != "var" {
+				continue
+			}
+			name, ok := h.havocVars[v.name]
+			if !ok || mentions(t, v.name) {
+				continue
+			}
+			m := st.mems[name]
+			if m != nil && m.kind == MWrite && m.val == v {
+				st.mems[name] = m.prev.Write(m.keys, t)
+				delete(h.havocVars, v.name)
+			}
+		}
+	}
 }
